@@ -271,4 +271,264 @@ theorem parse_renderParts (ps : List (Nat × Option Nat)) (hne : ps ≠ []) :
   unfold parse
   simp [h1, h2, parseParts_renderParts ps hne]
 
+/-! ### maximal runs -/
+
+/-- maximal runs `(first, last)` of consecutive values of a strictly ascending list -/
+def runs : List Nat → List (Nat × Nat)
+  | [] => []
+  | x :: xs =>
+    match runs xs with
+    | (a, b) :: rs => if x + 1 = a then (x, b) :: rs else (x, x) :: (a, b) :: rs
+    | [] => [(x, x)]
+
+def renderRun : Nat × Nat → Str
+  | (a, b) => if a = b then toDec a else if a + 1 = b then toDec a ++ ',' :: toDec b
+              else toDec a ++ '-' :: toDec b
+
+def renderRuns (rs : List (Nat × Nat)) : Str := join [','] (rs.map renderRun)
+
+theorem runs_cons_head (x : Nat) (xs : List Nat) :
+    ∃ b rs, runs (x :: xs) = (x, b) :: rs ∧ x ≤ b := by
+  induction xs generalizing x with
+  | nil => exact ⟨x, [], rfl, Nat.le_refl _⟩
+  | cons y ys ih =>
+    obtain ⟨b, rs, e, hb⟩ := ih y
+    by_cases h : x + 1 = y
+    · exact ⟨b, rs, by rw [runs, e]; simp [h], by omega⟩
+    · exact ⟨x, (y, b) :: rs, by rw [runs, e]; simp [h], Nat.le_refl _⟩
+
+theorem runs_cons_adj (x y : Nat) (rest : List Nat) (b : Nat) (rs : List (Nat × Nat))
+    (e : runs (y :: rest) = (y, b) :: rs) (h : x + 1 = y) :
+    runs (x :: y :: rest) = (x, b) :: rs := by
+  rw [runs, e]; simp [h]
+
+theorem runs_cons_gap (x y : Nat) (rest : List Nat) (h : x + 1 ≠ y) :
+    runs (x :: y :: rest) = (x, x) :: runs (y :: rest) := by
+  obtain ⟨b, rs, e, _⟩ := runs_cons_head y rest
+  rw [runs, e]; simp [h]
+
+theorem join_cons_cons (sep w : Str) (ws : List Str) (h : ws ≠ []) :
+    join sep (w :: ws) = w ++ sep ++ join sep ws := by
+  cases ws with
+  | nil => exact absurd rfl h
+  | cons a as => rfl
+
+/-- the text after the first run -/
+def moreRuns (rs : List (Nat × Nat)) : Str := rs.flatMap (fun r => ',' :: renderRun r)
+
+theorem renderRuns_cons (r : Nat × Nat) (rs : List (Nat × Nat)) :
+    renderRuns (r :: rs) = renderRun r ++ moreRuns rs := by
+  induction rs generalizing r with
+  | nil => simp [renderRuns, moreRuns, join]
+  | cons s rs ih =>
+    have := ih s
+    unfold renderRuns at this ⊢
+    simp only [List.map_cons] at this ⊢
+    rw [join_cons_cons _ _ _ (by simp), this]
+    simp [moreRuns]
+
+/-! ### the index loop, token level -/
+
+/-- the tokens appended by `windowLoop`, in order; `d` = the last token so far is a dash -/
+def emit : Bool → Nat → List Nat → List Tok
+  | d, prev, x :: y :: rest =>
+    if x - prev = 1 ∧ prev < x ∧ y - x = 1 ∧ x < y then
+      (if d then emit true x (y :: rest) else Tok.dash :: emit true x (y :: rest))
+    else Tok.num x :: emit false x (y :: rest)
+  | _, _, _ => []
+
+theorem windowLoop_eq (prev : Nat) (l : List Nat) (acc : List Tok) :
+    windowLoop prev l acc = (emit (decide (acc.head? = some Tok.dash)) prev l).reverse ++ acc := by
+  induction l generalizing prev acc with
+  | nil => simp [windowLoop, emit]
+  | cons x xs ih =>
+    cases xs with
+    | nil => simp [windowLoop, emit]
+    | cons y rest =>
+      rw [windowLoop, emit, ih]
+      by_cases hm : x - prev = 1 ∧ prev < x ∧ y - x = 1 ∧ x < y
+      · by_cases hd : acc.head? = some Tok.dash
+        · simp [hm, hd]
+        · simp [hm, hd]
+      · simp [hm]
+
+theorem compressToks_eq (a b : Nat) (rest : List Nat) :
+    compressToks (a :: b :: rest) =
+      Tok.num a :: (emit false a (b :: rest) ++ [Tok.num ((b :: rest).getLast?.getD 0)]) := by
+  simp [compressToks, windowLoop_eq, List.getLast?_cons]
+
+theorem renderFrom_num_cons (p n : Nat) (ts : List Tok) :
+    renderFrom (Tok.num p) (Tok.num n :: ts) = ',' :: toDec n ++ renderFrom (Tok.num n) ts := by
+  simp [renderFrom, sameKind, renderTok]
+theorem renderFrom_dash_num (n : Nat) (ts : List Tok) :
+    renderFrom Tok.dash (Tok.num n :: ts) = toDec n ++ renderFrom (Tok.num n) ts := by
+  simp [renderFrom, sameKind, renderTok]
+theorem renderFrom_num_dash (p : Nat) (ts : List Tok) :
+    renderFrom (Tok.num p) (Tok.dash :: ts) = '-' :: renderFrom Tok.dash ts := by
+  simp [renderFrom, sameKind, renderTok]
+
+/-- the rendering of what the loop emits after `prev`, in both loop states -/
+theorem render_emit (l : List Nat) : ∀ prev, l ≠ [] → (prev :: l).Pairwise (· < ·) →
+    (toDec prev ++ renderFrom (Tok.num prev) (emit false prev l ++ [Tok.num (l.getLast?.getD 0)])
+        = renderRuns (runs (prev :: l))) ∧
+    (∀ b rs, l.head? = some (prev + 1) → runs (prev :: l) = (prev, b) :: rs →
+      renderFrom Tok.dash (emit true prev l ++ [Tok.num (l.getLast?.getD 0)])
+        = toDec b ++ moreRuns rs) := by
+  induction l with
+  | nil => intro _ h; exact absurd rfl h
+  | cons x xs ih =>
+    intro prev _ hs
+    have hpx : prev < x := (List.pairwise_cons.mp hs).1 x (by simp)
+    cases xs with
+    | nil =>
+      constructor
+      · by_cases h : prev + 1 = x
+        · simp [emit, renderFrom_num_cons, renderFrom, runs, h, renderRuns, join, renderRun]
+          omega
+        · simp [emit, renderFrom_num_cons, renderFrom, runs, h, renderRuns, join, renderRun]
+      · intro b rs hh hr
+        simp at hh
+        simp [runs, hh] at hr
+        obtain ⟨rfl, rfl⟩ := hr
+        simp [emit, renderFrom_dash_num, renderFrom, hh, moreRuns]
+    | cons y rest =>
+      have hs' : (x :: y :: rest).Pairwise (· < ·) := (List.pairwise_cons.mp hs).2
+      have hxy : x < y := (List.pairwise_cons.mp hs').1 y (by simp)
+      obtain ⟨ihA, ihB⟩ := ih x (by simp) hs'
+      obtain ⟨b', rs', e', hb'⟩ := runs_cons_head y rest
+      simp only [List.getLast?_cons_cons] at ihA ihB ⊢
+      by_cases hm : x - prev = 1 ∧ prev < x ∧ y - x = 1 ∧ x < y
+      · -- interior of a run
+        have h1 : prev + 1 = x := by omega
+        have h2 : x + 1 = y := by omega
+        have ex := runs_cons_adj x y rest b' rs' e' h2
+        have ep := runs_cons_adj prev x (y :: rest) b' rs' ex h1
+        have hB := ihB b' rs' (by simp [h2]) ex
+        constructor
+        · rw [emit]; simp only [hm, and_self, if_true, Bool.false_eq_true, if_false]
+          rw [List.cons_append, renderFrom_num_dash, hB, ep, renderRuns_cons]
+          have n1 : ¬ prev = b' := by omega
+          have n2 : ¬ prev + 1 = b' := by omega
+          simp [renderRun, n1, n2]
+        · intro b rs _ hr
+          rw [ep] at hr
+          simp at hr
+          rw [emit]; simp only [hm, and_self, if_true]
+          rw [hB, hr.1, hr.2]
+      · -- `x` ends or starts a run: its number is written
+        rw [emit, emit]; simp only [hm, if_false]
+        simp only [List.cons_append, renderFrom_num_cons, renderFrom_dash_num]
+        constructor
+        · rw [ihA]
+          by_cases h1 : prev + 1 = x
+          · have h2 : x + 1 ≠ y := by omega
+            have ex := runs_cons_gap x y rest h2
+            have ep := runs_cons_adj prev x (y :: rest) x _ ex h1
+            rw [ex, ep, renderRuns_cons, renderRuns_cons]
+            have n1 : ¬ prev = x := by omega
+            simp [renderRun, n1, h1]
+          · rw [runs_cons_gap prev x (y :: rest) h1, renderRuns_cons (prev, prev)]
+            obtain ⟨bx, rsx, ex, _⟩ := runs_cons_head x (y :: rest)
+            rw [ex, renderRuns_cons (x, bx)]
+            simp [renderRun, moreRuns]
+        · intro b rs hh hr
+          simp at hh
+          have h2 : x + 1 ≠ y := by omega
+          have ex := runs_cons_gap x y rest h2
+          have ep := runs_cons_adj prev x (y :: rest) x _ ex hh.symm
+          rw [ep] at hr
+          simp at hr
+          rw [ihA, ex, renderRuns_cons, ← hr.1, ← hr.2]
+          simp [renderRun]
+
+/-- the index loop with its window and the type-switch comma logic writes the maximal runs -/
+theorem renderToks_compressToks (s : List Nat) (h : s.Pairwise (· < ·)) :
+    renderToks (compressToks s) = renderRuns (runs s) := by
+  match s, h with
+  | [], _ => rfl
+  | [a], _ => simp [compressToks, renderToks, renderFrom, renderTok, runs, renderRuns, join, renderRun]
+  | a :: b :: rest, h =>
+    rw [compressToks_eq, renderToks, renderTok]
+    exact (render_emit (b :: rest) a (by simp) h).1
+
+theorem compress_eq (s : List Nat) (h : s.Pairwise (· < ·)) : compress s = renderRuns (runs s) := by
+  unfold compress; rw [sortedSet_of_sorted s h, renderToks_compressToks s h]
+
+/-! ### what makes the runs canonical -/
+
+theorem upto_cons (lo hi : Nat) (h : lo ≤ hi) : upto lo hi = lo :: upto (lo + 1) hi := by
+  unfold upto
+  have e : hi + 1 - lo = (hi + 1 - (lo + 1)) + 1 := by omega
+  rw [e, List.range_succ_eq_map]
+  simp [List.map_map, Function.comp_def]
+  intro a _; omega
+
+theorem upto_self (a : Nat) : upto a a = [a] := by simp [upto]
+
+/-- the runs, expanded, are the list itself: they cover exactly `S`, in order -/
+theorem runs_cover (s : List Nat) : (runs s).flatMap (fun r => upto r.1 r.2) = s := by
+  induction s with
+  | nil => rfl
+  | cons x xs ih =>
+    cases xs with
+    | nil => simp [runs, upto_self]
+    | cons y rest =>
+      obtain ⟨b, rs, e, hb⟩ := runs_cons_head y rest
+      by_cases h : x + 1 = y
+      · rw [runs_cons_adj x y rest b rs e h]
+        rw [e] at ih
+        simp only [List.flatMap_cons] at ih ⊢
+        rw [upto_cons x b (by omega), h, List.cons_append, ih]
+      · rw [runs_cons_gap x y rest h]
+        simp only [List.flatMap_cons, upto_self, ih]; rfl
+
+theorem runs_le (s : List Nat) : ∀ r ∈ runs s, r.1 ≤ r.2 := by
+  induction s with
+  | nil => simp [runs]
+  | cons x xs ih =>
+    cases xs with
+    | nil => simp [runs]
+    | cons y rest =>
+      obtain ⟨b, rs, e, hb⟩ := runs_cons_head y rest
+      rw [e] at ih
+      by_cases h : x + 1 = y
+      · rw [runs_cons_adj x y rest b rs e h]
+        intro r hr
+        rcases List.mem_cons.mp hr with rfl | hr
+        · simp; omega
+        · exact ih r (by simp [hr])
+      · rw [runs_cons_gap x y rest h, e]
+        intro r hr
+        rcases List.mem_cons.mp hr with rfl | hr
+        · simp
+        · exact ih r hr
+
+/-- consecutive runs are separated by a gap: the runs are maximal and ascending -/
+theorem runs_separated (s : List Nat) (hs : s.Pairwise (· < ·)) :
+    (runs s).Pairwise (fun r t => r.2 + 2 ≤ t.1) := by
+  induction s with
+  | nil => simp [runs]
+  | cons x xs ih =>
+    have hs' := (List.pairwise_cons.mp hs).2
+    cases xs with
+    | nil => simp [runs]
+    | cons y rest =>
+      have hxy : x < y := (List.pairwise_cons.mp hs).1 y (by simp)
+      obtain ⟨b, rs, e, hb⟩ := runs_cons_head y rest
+      have ih := ih hs'
+      by_cases h : x + 1 = y
+      · rw [runs_cons_adj x y rest b rs e h]
+        rw [e] at ih
+        exact List.pairwise_cons.mpr ⟨(List.pairwise_cons.mp ih).1, (List.pairwise_cons.mp ih).2⟩
+      · rw [runs_cons_gap x y rest h]
+        refine List.pairwise_cons.mpr ⟨?_, ih⟩
+        intro t ht
+        rw [e] at ht ih
+        have hle := runs_le (y :: rest)
+        rw [e] at hle
+        rcases List.mem_cons.mp ht with rfl | ht
+        · simp; omega
+        · have := (List.pairwise_cons.mp ih).1 t ht
+          simp at this ⊢; omega
+
 end Ccp.Range
